@@ -1,6 +1,10 @@
 use crate::internals::function_wrapper::FunctionWrapper;
 use crate::internals::stream_controller::*;
 use crate::prelude::*;
+use std::{
+  collections::VecDeque,
+  sync::{Arc, RwLock},
+};
 
 #[derive(Clone)]
 pub struct CombineLatest<'a, Item, Out>
@@ -8,7 +12,7 @@ where
   Item: Clone + Send + Sync,
   Out: Clone + Send + Sync,
 {
-  zip_op: operators::Zip<'a, Item>,
+  observables: Vec<Observable<'a, Item>>,
   combine_f: FunctionWrapper<'a, Vec<Item>, Out>,
 }
 
@@ -25,35 +29,60 @@ where
     F: Fn(Vec<Item>) -> Out + Send + Sync + 'a,
   {
     CombineLatest {
-      zip_op: operators::Zip::new(observables),
+      observables: observables.to_vec(),
       combine_f: FunctionWrapper::new(f),
     }
   }
   pub fn execute(&self, source: Observable<'a, Item>) -> Observable<'a, Out> {
-    let zip_op = self.zip_op.clone();
+    let observables = self.observables.clone();
     let combine_f = self.combine_f.clone();
 
     Observable::create(move |s| {
-      let source = source.clone();
-      let combine_f = combine_f.clone();
-
       let sctl = StreamController::new(s);
 
-      let sctl_next = sctl.clone();
-      let sctl_error = sctl.clone();
-      let sctl_complete = sctl.clone();
+      // the latest item of every input (the source first)
+      let latest = Arc::new(RwLock::new(vec![
+        None::<Item>;
+        observables.len() + 1
+      ]));
 
-      zip_op.execute(source).inner_subscribe(sctl.new_observer(
-        move |_, x| {
-          sctl_next.sink_next(combine_f.call(x));
-        },
-        move |_, e| {
-          sctl_error.sink_error(e);
-        },
-        move |serial| {
-          sctl_complete.sink_complete(&serial);
-        },
-      ));
+      // prepare subscribers
+      let mut sbs = {
+        let sctl = sctl.clone();
+        let combine_f = combine_f.clone();
+        VecDeque::from_iter(
+          (0..(observables.len() + 1)).map(move |id| {
+            let latest = Arc::clone(&latest);
+            let combine_f = combine_f.clone();
+            let sctl_next = sctl.clone();
+            let sctl_error = sctl.clone();
+            let sctl_complete = sctl.clone();
+            sctl.new_observer(
+              move |_, x| {
+                let items = {
+                  let mut latest = latest.write().unwrap();
+                  latest[id] = Some(x);
+                  latest.iter().cloned().collect::<Option<Vec<Item>>>()
+                };
+                if let Some(items) = items {
+                  sctl_next.sink_next(combine_f.call(items));
+                }
+              },
+              move |_, e| {
+                sctl_error.sink_error(e);
+              },
+              move |serial| {
+                sctl_complete.sink_complete(&serial);
+              },
+            )
+          }),
+        )
+      };
+
+      source.inner_subscribe(sbs.pop_front().unwrap());
+      observables.iter().for_each(|o| {
+        o.inner_subscribe(sbs.pop_front().unwrap());
+      });
     })
   }
 }
